@@ -21,6 +21,7 @@ type routeObs struct {
 	Verb     string
 	Template string            // normalised: variables as {name} (name "" if unknown)
 	Place    map[string]string // field json name -> "path" | "query:<name>" | "body"
+	HasBody  bool              // client: the request carries a body; openapi: the operation declares a requestBody
 	Known    bool
 	Note     string
 }
@@ -108,6 +109,7 @@ func clientObs(p1, p2 map[string]any, c1, c2 *rt.TSCase, bodyKey string) routeOb
 	} else if p1["body"] != nil {
 		body = []byte(str(p1, "body"))
 	}
+	o.HasBody = len(body) > 0
 	if len(body) > 0 {
 		if bv, err := model.Parse(body); err == nil {
 			if bm, ok := bv.(map[string]any); ok {
@@ -222,6 +224,7 @@ func C03(c *Ctx, r *report.Run) error {
 						o.Place["?"+prm.Name] = "query:" + prm.Name
 					}
 				}
+				o.HasBody = op.BodyPtr != ""
 				if op.BodyPtr != "" {
 					if sch, ok := model.Ptr(doc, op.BodyPtr); ok {
 						if ref, ok := sch.(map[string]any)["$ref"].(string); ok {
@@ -305,6 +308,13 @@ func C03(c *Ctx, r *report.Run) error {
 			for cname, co := range map[string]routeObs{"go-client": gc, "ts-client": tc} {
 				if !co.Known {
 					continue
+				}
+				// a request body is sent exactly when the operation declares one
+				if co.HasBody != oa.HasBody {
+					r.Violate(cellBase+"#body:"+cname, "placement_incompatible("+cname+"~openapi)", fmt.Sprintf("request body: the %s sends one: %v, the operation declares a requestBody: %v", cname, co.HasBody, oa.HasBody), replay)
+					r.Case(cellBase, "placement_incompatible", true)
+				} else {
+					r.Case(cellBase, "body_presence_agrees", true)
 				}
 				for f, loc := range co.Place {
 					okp := false
